@@ -5,13 +5,17 @@ import json, os, subprocess, sys
 V = os.path.dirname(os.path.dirname(os.path.abspath(__file__)))
 ids = sys.argv[1:] or sorted(os.listdir(os.path.join(V, "seeded")))
 props = json.load(open(os.path.join(V, "tools", "props.json")))
-assert subprocess.run(["git", "-C", "/repo", "status", "--porcelain"], capture_output=True, text=True).stdout.strip() == "", "/repo not clean"
+# the seeded change is applied to a scratch worktree of /repo's HEAD (never to /repo itself); checks follow VERIF_REPO
+WT = "/var/tmp/verif-seed-wt"
+subprocess.run(["git", "-C", "/repo", "worktree", "remove", "--force", WT], capture_output=True)
+subprocess.run(["git", "-C", "/repo", "worktree", "add", "-f", "--detach", WT, "HEAD"], check=True, capture_output=True)
+ENV = dict(os.environ, VERIF_REPO=WT, VERIF_EVIDENCE_DIR="/var/tmp/verif-seed-evidence")
 for sid in ids:
     d = os.path.join(V, "seeded", sid)
     meta = json.load(open(os.path.join(d, "meta.json")))
     pid = meta["property"]
     checks = [pid] + [c for c in meta.get("also_run", []) if c != pid]
-    a = subprocess.run(["git", "-C", "/repo", "apply", os.path.join(d, "patch.diff")], capture_output=True, text=True)
+    a = subprocess.run(["git", "-C", WT, "apply", os.path.join(d, "patch.diff")], capture_output=True, text=True)
     if a.returncode != 0:
         print(sid, "patch does not apply:", a.stderr[:200]); continue
     res = {}
@@ -19,7 +23,7 @@ for sid in ids:
         for c in checks:
             if c not in props:
                 res[c] = {"exit": None, "note": "property not claimed"}; continue
-            p = subprocess.run([os.path.join(V, "check"), c, "--tier", "quick"], cwd=V, capture_output=True, text=True)
+            p = subprocess.run([os.path.join(V, "check"), c, "--tier", "quick"], cwd=V, capture_output=True, text=True, env=ENV)
             lines = [l for l in p.stdout.split("\n") if l.startswith(("VIOLATION", "UNDECIDED", "KNOWN"))]
             rp = None
             for l in lines:
@@ -28,7 +32,9 @@ for sid in ids:
             doc = json.load(open(rp)) if rp and os.path.exists(rp) else None
             res[c] = {"exit": p.returncode, "lines": lines[:6], "replay": {k: doc.get(k) for k in ("obligation", "inputs", "expected", "observed", "reproduced")} if doc else None}
     finally:
-        subprocess.run(["git", "-C", "/repo", "checkout", "--", "."], check=True)
+        subprocess.run(["git", "-C", WT, "checkout", "--", "."], check=True)
     caught = any(r.get("exit") == 1 for r in res.values())
     json.dump({"caught": caught, "checks": res}, open(os.path.join(d, "result.json"), "w"), indent=1)
     print(sid, "CAUGHT" if caught else "MISSED", {c: r.get("exit") for c, r in res.items()}, [r["replay"]["obligation"] for r in res.values() if r.get("replay")])
+subprocess.run(["git", "-C", "/repo", "worktree", "remove", "--force", WT], capture_output=True)
+import shutil; shutil.rmtree("/var/tmp/verif-seed-evidence", ignore_errors=True)
